@@ -9,8 +9,8 @@ import (
 )
 
 func init() {
-	registerRule("codec-no-panic", 30, "no panic-capable construct is reachable from any JSON/gob codec method outside the audited table", ruleCodecNoPanic)
-	registerRule("bounded-recursion", 30, "codec methods re-enter themselves only through encoding/json on a strictly nested value", ruleBoundedRecursion)
+	registerRule("codec-no-panic", 75, "no panic-capable construct is reachable from any JSON/gob codec method outside the audited table", ruleCodecNoPanic)
+	registerRule("bounded-recursion", 42, "codec methods re-enter themselves only through encoding/json on a strictly nested value", ruleBoundedRecursion)
 }
 
 var codecRootNames = []string{"UnmarshalJSON", "MarshalJSON", "GobEncode", "GobDecode", "fromMap", "JSONLookup"}
